@@ -232,6 +232,13 @@ Definition exec (d : dstate) (c : cmd) : dstate * list out :=
   | QExit _ | QOther => (d, [])
   end.
 
+(* the goodbye packet a command sends: unregistering a registered service *)
+Definition exec_gb (d : dstate) (c : cmd) : list bytes :=
+  match c with
+  | QUnregister n _ => if mem n (d_services d) then [n] else []
+  | _ => []
+  end.
+
 (* handle_read / handle_response for the one kind of network input of this model: `n` new
    instances of type `ty` (ignored unless somebody browses `ty`) *)
 Fixpoint arrive (d : dstate) (a : list (bytes * N)) : dstate * list out :=
@@ -279,7 +286,7 @@ Fixpoint drain0 (d : dstate) (q : list cmd) : dstate * list out * list bytes * b
   | c :: rest =>
     let (d1, o1) := exec d c in
     let '(d2, o2, g, x) := drain0 d1 rest in
-    (d2, o1 ++ o2, g, x)
+    (d2, o1 ++ o2, exec_gb d c ++ g, x)
   end.
 
 (* ---- listener capacity -------------------------------------------------------------------- *)
@@ -322,7 +329,7 @@ Fixpoint drain (d : dstate) (c : counts) (q : list cmd) : iter_result :=
     if b then mkIter d1 o [] false true rest
     else
       let r := drain d1 c1 rest in
-      mkIter (it_d r) (o ++ it_out r) (it_goodbyes r) (it_exited r) (it_stuck r) (it_rest r)
+      mkIter (it_d r) (o ++ it_out r) (exec_gb d k ++ it_goodbyes r) (it_exited r) (it_stuck r) (it_rest r)
   end.
 
 (* one loop iteration: incoming packets first, then the commands *)
@@ -348,7 +355,7 @@ Definition sys_init : sys := mkSys (mkChan [] false) d_init 0 false.
 Record sobs : Type := mkObs {
   so_results : list cres;
   so_events : list out;        (* order across different channels is not significant *)
-  so_goodbyes : list bytes;    (* order not significant *)
+  so_goodbyes : list bytes;    (* goodbyes sent in the iteration in which the daemon ended; order not significant *)
   so_exited : bool;
   so_stuck : bool }.           (* the daemon thread did not come back from this iteration *)
 
@@ -359,7 +366,10 @@ Definition step (s : sys) (i : stepin) : sys * sobs :=
   else
     let r := iterate (s_d s) (in_found i) (q_items q1) in
     (mkSys (mkChan (it_rest r) (it_exited r)) (it_d r) nxt (it_stuck r),
-     mkObs rs (o0 ++ it_out r) (it_goodbyes r) (it_exited r) (it_stuck r)).
+     (* the clients read their channels when the iteration is over; if it never is, they
+        never read what a blocked iteration had already sent *)
+     mkObs rs (if it_stuck r then o0 else o0 ++ it_out r)
+           (if it_exited r then it_goodbyes r else []) (it_exited r) (it_stuck r)).
 
 Fixpoint run_from (s : sys) (h : list stepin) : list sobs :=
   match h with
@@ -445,6 +455,12 @@ Fixpoint exec_seq (d : dstate) (q : list cmd) : dstate * list out :=
   | [] => (d, [])
   | c :: t => let (d1, o1) := exec d c in let (d2, o2) := exec_seq d1 t in (d2, o1 ++ o2)
   end.
+(* the goodbyes they send (unregister) *)
+Fixpoint exec_seq_gb (d : dstate) (q : list cmd) : list bytes :=
+  match q with
+  | [] => []
+  | c :: t => exec_gb d c ++ exec_seq_gb (fst (exec d c)) t
+  end.
 
 (* (2) every accepted command that carries a channel is answered or closed within the step.
    A monitor subscription has nothing to say until something happens; it must only never be
@@ -462,8 +478,9 @@ Definition chk_resolves (q : list cmd) (exited : bool) (evs : list out) : bool :
 Definition chans_of (q : list cmd) : list N :=
   flat_map (fun c => match cmd_chan c with Some ch => [ch] | None => [] end) q.
 
-(* (3) the step in which a shutdown was accepted: the daemon ends in this step; goodbyes for
-   exactly the services registered by the commands in front of Exit; on every channel the
+(* (3) the step in which a shutdown was accepted: the daemon ends in this step; the goodbyes
+   of this iteration are those of the unregister commands in front of Exit plus one for
+   exactly the services still registered when Exit is reached; on every channel the
    daemon held at that point, on Exit's channel and on the channels of the commands behind
    Exit, the client reads exactly what the packets received, the sequential execution of the
    commands in front of Exit and then the clean-up prescribe (in particular: one
@@ -481,7 +498,7 @@ Definition chk_shutdown (d : dstate) (found : list (bytes * N)) (q : list cmd) (
     let (d1, o1) := exec_seq d0 (before_exit q) in
     let expected := oa ++ o1 ++ shutdown_outputs d1 x rest in
     so_exited o
-    && same_multiset (so_goodbyes o) (cleanup_goodbyes d1)
+    && same_multiset (so_goodbyes o) (exec_seq_gb d0 (before_exit q) ++ cleanup_goodbyes d1)
     && forallb (fun ch => evs_eqb (evs_of ch (so_events o)) (evs_of ch expected))
                (held_channels d1 ++ x :: chans_of rest)
   end.
